@@ -34,6 +34,7 @@ type dropRef struct {
 	Funcs   []string            `json:"funcs"`   // full names of the declared functions
 	Gos     map[string]int      `json:"gos"`     // function -> number of go statements
 	Rejects map[string][]string `json:"rejects"` // function -> the constant messages of the errors it constructs
+	RejectN map[string]int      `json:"reject_n"` // function -> number of error constructions
 	Must    map[string][]string `json:"must"`    // function -> effectful callees that are called on every path to a return
 	Params  map[string][]string `json:"params"`  // function -> per parameter (receiver first): its type if the parameter is used, "" if not
 }
@@ -68,6 +69,74 @@ func pureLooking(name string) bool {
 	return false
 }
 
+var pureMemo = map[*ssa.Function]bool{}
+
+// pureModuleFunc: a function of the module whose body can be seen to have no effect – it stores only
+// into its own locals, sends, starts and defers nothing, and calls only builtins, getters by name and
+// functions of the same kind (an accessor such as Set.Length(), whatever it is called).
+func pureModuleFunc(f *ssa.Function, depth int) bool {
+	if f == nil || len(f.Blocks) == 0 || depth > 3 {
+		return false
+	}
+	if v, ok := pureMemo[f]; ok {
+		return v
+	}
+	pureMemo[f] = false // recursion: assume the worst
+	pure := true
+	allInstrs(f, func(ins ssa.Instruction) {
+		if !pure {
+			return
+		}
+		switch x := ins.(type) {
+		case *ssa.Store:
+			root := x.Addr
+			for {
+				switch a := root.(type) {
+				case *ssa.IndexAddr:
+					root = a.X
+					continue
+				case *ssa.FieldAddr:
+					root = a.X
+					continue
+				}
+				break
+			}
+			if _, local := root.(*ssa.Alloc); !local {
+				pure = false
+			}
+		case *ssa.MapUpdate, *ssa.Send, *ssa.Go, *ssa.Defer, *ssa.Panic, *ssa.Select:
+			pure = false
+		case *ssa.UnOp:
+			if x.Op == token.ARROW {
+				pure = false
+			}
+		case *ssa.Call:
+			if x.Call.IsInvoke() {
+				pure = pureLooking(x.Call.Method.Name())
+				return
+			}
+			if bi, isB := x.Call.Value.(*ssa.Builtin); isB {
+				switch bi.Name() {
+				case "len", "cap", "min", "max", "append", "new", "make":
+				default:
+					pure = false
+				}
+				return
+			}
+			sc := x.Call.StaticCallee()
+			if sc == nil {
+				pure = false
+				return
+			}
+			if !pureLooking(sc.Name()) && !pureModuleFunc(sc, depth+1) {
+				pure = false
+			}
+		}
+	})
+	pureMemo[f] = pure
+	return pure
+}
+
 func effectfulCalls(g *ssa.Function) []string {
 	var out []string
 	allInstrs(g, func(ins ssa.Instruction) {
@@ -90,7 +159,7 @@ func effectfulCalls(g *ssa.Function) []string {
 		if i := strings.LastIndex(name, "."); i >= 0 {
 			name = name[i+1:]
 		}
-		if pureLooking(name) {
+		if pureLooking(name) || pureModuleFunc(cc.StaticCallee(), 0) {
 			return
 		}
 		out = append(out, id)
@@ -216,6 +285,19 @@ func rejectionMessages(g *ssa.Function) []string {
 	return sortedKeys(set)
 }
 
+// countRejections: the number of errors g constructs.
+func countRejections(g *ssa.Function) int {
+	n := 0
+	allInstrs(g, func(ins ssa.Instruction) {
+		if cl, ok := ins.(*ssa.Call); ok {
+			if sc := cl.Call.StaticCallee(); sc != nil && isErrorConstructor(sc) {
+				n++
+			}
+		}
+	})
+	return n
+}
+
 // usedParams: per parameter its type when the body uses it, "" when it does not.
 func usedParams(g *ssa.Function) []string {
 	out := make([]string, len(g.Params))
@@ -240,7 +322,7 @@ func genDropReference(repo string) error {
 	if err != nil {
 		return err
 	}
-	ref := dropRef{Note: "per function of the reference tree: calls with an effect and struct fields assigned; generated by `bbcheck -gen-reference`, never written by a check", Calls: map[string][]string{}, Fields: map[string][]string{}, Params: map[string][]string{}, Must: map[string][]string{}, Gos: map[string]int{}, Rejects: map[string][]string{}}
+	ref := dropRef{Note: "per function of the reference tree: calls with an effect and struct fields assigned; generated by `bbcheck -gen-reference`, never written by a check", Calls: map[string][]string{}, Fields: map[string][]string{}, Params: map[string][]string{}, Must: map[string][]string{}, Gos: map[string]int{}, Rejects: map[string][]string{}, RejectN: map[string]int{}}
 	for _, rel := range allDropPkgs() {
 		for _, tf := range p.srcFuncs(rel) {
 			if tf.Object() != nil {
@@ -251,6 +333,7 @@ func genDropReference(repo string) error {
 				ref.Gos[FuncName(g)] = countGos(g)
 				if m := rejectionMessages(g); len(m) > 0 {
 					ref.Rejects[FuncName(g)] = m
+					ref.RejectN[FuncName(g)] = countRejections(g)
 				}
 				if m := mustCalls(g); len(m) > 0 {
 					ref.Must[FuncName(g)] = m
@@ -361,7 +444,9 @@ func runDropDrift(c *Ctx, pkgs []string) {
 					}
 				}
 				// a rejection that disappeared
-				if msgs, knownR := dropRefCache.Rejects[fk]; knownR {
+				// (an error that is still built, only worded differently, is not one that disappeared: the
+				// function must construct fewer errors than it did)
+				if msgs, knownR := dropRefCache.Rejects[fk]; knownR && countRejections(g) < dropRefCache.RejectN[fk] {
 					have := map[string]bool{}
 					for _, m := range rejectionMessages(g) {
 						have[m] = true
